@@ -130,7 +130,9 @@ def gen_mod(rng, name=None):
     elif r < 0.42:
         lines.append("    let _k: u32 = K%s;" % pick(rng, PKGS)[-1])     # relies on a file-level import
     lines.append("    var r: %slogic<%s>;" % (dom, w))
-    if chance(rng, 0.2):
+    if chance(rng, 0.3):
+        if chance(rng, 0.6):
+            lines.append("    #[allow(unused_variable)]")      # attribute_table: must stop applying once removed
         lines.append("    var unused_v: logic;")
     if chance(rng, 0.12):
         lines.append("    var unassigned_v: logic;")
@@ -167,7 +169,10 @@ def gen_mod(rng, name=None):
     lines += ["    always_ff (i_clk, i_rst) {", "        if_reset {", "            r = 0;", "        } else {", "            r = i_a;",
               "        }", "    }"]
     if cdc and chance(rng, 0.7):
-        lines.append("    assign o_a = r | i_b;")
+        if chance(rng, 0.4):
+            lines += ["    unsafe (cdc) {", "        assign o_a = r | i_b;", "    }"]      # unsafe_table
+        else:
+            lines.append("    assign o_a = r | i_b;")
     else:
         lines.append("    assign o_a = r;")
     lines.append("}")
@@ -187,8 +192,8 @@ def gen_misc(rng):
     if r < 0.7:
         return {"kind": "misc", "name": "", "text": "// comment line\n/* block\n comment */"}
     if r < 0.85:
-        return {"kind": "misc", "name": "", "text": "alias module Ali%s = %s;" % (pick(rng, "XY"), pick(rng, MODS))}
-    return {"kind": "misc", "name": "", "text": "#[test(t_%s)]\nembed (inline) sv{{{\nmodule t_x; endmodule\n}}}" % pick(rng, "ab")}
+        return {"kind": "misc", "name": "", "text": "alias module Ali%d = %s;" % (rng.randrange(1000), pick(rng, MODS))}
+    return {"kind": "misc", "name": "", "text": "#[test(t_%d)]\nembed (inline) sv{{{\nmodule t_x; endmodule\n}}}" % rng.randrange(1000)}
 
 
 BLOCK_GENS = [(gen_pkg, 30), (gen_mod, 40), (gen_if, 10), (gen_gmod, 7), (gen_gpkg, 5), (gen_misc, 8)]
@@ -295,6 +300,19 @@ def rename_in_text(rng, text, old=None, new=None):
     return re.sub(r"\b%s\b" % re.escape(old), new, text), old, new
 
 
+def strip_attrs_keep_lines(text):
+    out = []
+    for l in text.split("\n"):
+        st = l.strip()
+        if st.startswith("#[allow("):
+            out.append("    // " + st)
+        elif st == "unsafe (cdc) {":
+            out.append("    :blk {")
+        else:
+            out.append(l)
+    return "\n".join(out)
+
+
 def strip_docs_keep_lines(text):
     return "\n".join(("//" + l[3:] if l.lstrip().startswith("///") else l) for l in text.split("\n"))
 
@@ -336,11 +354,12 @@ for _n in GMODS:
 for _n in GPKGS:
     _KIND_OF[_n] = gen_gpkg
 TOP_NAMES = PKGS + MODS + IFS + GMODS + GPKGS
-_TOP_DECL = re.compile(r"^(?:pub\s+)?(?:module|package|interface)\s+([A-Za-z_]\w*)", re.M)
+_TOP_DECL = re.compile(r"^(?:pub\s+)?(?:proto\s+)?(?:alias\s+)?(?:module|package|interface)\s+([A-Za-z_]\w*)|^#\[test\(([A-Za-z_]\w*)", re.M)
 
 
 def declared(text):
-    return _TOP_DECL.findall(text or "")
+    """top-level names a text declares (modules, packages, interfaces, aliases, embedded tests)"""
+    return [a or b for a, b in _TOP_DECL.findall(text or "")]
 
 
 def owned_block(rng, w, f):
@@ -421,6 +440,9 @@ def gen_history(rng, repo=None, shape=None):
     def mutate(f):
         t = w.open[f]
         bl = w.blocks.get(f)
+        if ("#[allow(" in t or "unsafe (cdc) {" in t) and chance(rng, 0.2):
+            set_text(f, strip_attrs_keep_lines(t))
+            return
         if chance(rng, 0.5 if shape == "import" else 0.08):
             lines = t.split("\n")
             idx = [i for i, l in enumerate(lines) if l.strip().startswith("import ")]
@@ -470,7 +492,10 @@ def gen_history(rng, repo=None, shape=None):
             set_text(f, line_mutation(rng, t))
             return
         if r < 0.70:
-            set_text(f, strip_docs_keep_lines(t) if chance(rng, 0.6) else strip_docs_remove_lines(t))
+            if ("#[allow(" in t or "unsafe (cdc)" in t) and chance(rng, 0.5):
+                set_text(f, strip_attrs_keep_lines(t))
+            else:
+                set_text(f, strip_docs_keep_lines(t) if chance(rng, 0.6) else strip_docs_remove_lines(t))
             return
         if bl is None:
             bl = [{"kind": "raw", "name": "", "text": t.rstrip("\n")}]
